@@ -116,8 +116,10 @@ impl<T: Tag> IndexEntry<T> {
         forall|p: Seq<IndexEntry<T>>| #[trigger] p.to_multiset() == actual_records@.to_multiset() ==> layout_len(p) <= 0x7fff_0000,
     ensures
         from_entries_ok(actual_records@, region_tag.spec_to_u32(), r),''',
+       prologue='let ghost input0 = actual_records@;',
        before=[('let mut store', '''let ghost sorted0 = actual_records@;
         proof {
+            lemma_same_elements(input0, sorted0);
             assert(layout_len(sorted0) <= 0x7fff_0000);
             assert(sorted0.take(0) =~= Seq::<IndexEntry<T>>::empty());
             lemma_layout_empty::<T>();
@@ -147,6 +149,16 @@ impl<T: Tag> IndexEntry<T> {
             assert forall|k: int| 0 <= k < recs.len() implies (#[trigger] recs[k]).offset as int == offset_at(recs, k) by {
                 lemma_offset_same(recs, sorted0, k);
             }
+            assert forall|i: int| 0 <= i < input0.len() implies has_payload(recs, #[trigger] input0[i]) by {
+                assert(sorted0.contains(input0[i]));
+                let j = choose|j: int| 0 <= j < sorted0.len() && sorted0[j] == input0[i];
+                assert(same_payload(input0[i], recs[j]));
+            }
+            assert forall|j: int| 0 <= j < recs.len() implies has_payload(input0, #[trigger] recs[j]) by {
+                assert(input0.contains(sorted0[j]));
+                let i = choose|i: int| 0 <= i < input0.len() && input0[i] == sorted0[j];
+                assert(same_payload(recs[j], input0[i]));
+            }
         }
         ''')]),
     Raw('''}
@@ -175,6 +187,26 @@ pub open spec fn offset_at<T: Tag>(p: Seq<IndexEntry<T>>, k: int) -> int {
     let l = layout_len(p.take(k));
     l + align_pad(l, align_of(p[k].data))
 }
+pub proof fn lemma_align(l: int, a: int)
+    requires l >= 0, a == 1 || a == 2 || a == 4 || a == 8,
+    ensures 0 <= align_pad(l, a) < a, (l + align_pad(l, a)) % a == 0,
+{
+    let q = l / a;
+    let r = l % a;
+    vstd::arithmetic::div_mod::lemma_fundamental_div_mod(l, a);
+    vstd::arithmetic::div_mod::lemma_mod_pos_bound(l, a);
+    if r == 0 {
+        vstd::arithmetic::div_mod::lemma_mod_self_0(a);
+        assert(align_pad(l, a) == 0);
+        vstd::arithmetic::div_mod::lemma_mod_multiples_basic(q, a);
+        assert(l == q * a) by (nonlinear_arith) requires l == a * q + r, r == 0;
+    } else {
+        vstd::arithmetic::div_mod::lemma_small_mod((a - r) as nat, a as nat);
+        assert(align_pad(l, a) == a - r);
+        assert(l + (a - r) == (q + 1) * a) by (nonlinear_arith) requires l == a * q + r;
+        vstd::arithmetic::div_mod::lemma_mod_multiples_basic(q + 1, a);
+    }
+}
 pub proof fn lemma_layout_step<T: Tag>(p: Seq<IndexEntry<T>>, k: int)
     requires 0 <= k < p.len(),
     ensures
@@ -189,6 +221,7 @@ pub proof fn lemma_layout_step<T: Tag>(p: Seq<IndexEntry<T>>, k: int)
     assert(p.take(k + 1).drop_last() =~= p.take(k));
     assert(p.take(k + 1).last() == p[k]);
     lemma_layout_bytes_len(p.take(k));
+    lemma_align(layout_len(p.take(k)), align_of(p[k].data));
 }
 pub proof fn lemma_layout_empty<T: Tag>()
     ensures layout_len(Seq::<IndexEntry<T>>::empty()) == 0, layout_bytes(Seq::<IndexEntry<T>>::empty()) == Seq::<u8>::empty(),
@@ -233,6 +266,31 @@ pub proof fn lemma_offset_same<T: Tag>(a: Seq<IndexEntry<T>>, b: Seq<IndexEntry<
 {
     lemma_layout_same(a.take(k), b.take(k));
 }
+pub open spec fn same_payload<T: Tag>(a: IndexEntry<T>, b: IndexEntry<T>) -> bool {
+    a.tag == b.tag && a.data == b.data && a.num_items == b.num_items
+}
+pub open spec fn has_payload<T: Tag>(s: Seq<IndexEntry<T>>, e: IndexEntry<T>) -> bool {
+    exists|j: int| 0 <= j < s.len() && same_payload(e, #[trigger] s[j])
+}
+/// two sequences with equal multisets contain the same elements
+pub proof fn lemma_same_elements<T: Tag>(a: Seq<IndexEntry<T>>, b: Seq<IndexEntry<T>>)
+    requires a.to_multiset() == b.to_multiset(),
+    ensures
+        a.len() == b.len(),
+        forall|i: int| 0 <= i < a.len() ==> b.contains(#[trigger] a[i]),
+        forall|j: int| 0 <= j < b.len() ==> a.contains(#[trigger] b[j]),
+{
+    a.to_multiset_ensures();
+    b.to_multiset_ensures();
+    assert forall|i: int| 0 <= i < a.len() implies b.contains(#[trigger] a[i]) by {
+        assert(a.contains(a[i]));
+        assert(a.to_multiset().count(a[i]) > 0);
+    }
+    assert forall|j: int| 0 <= j < b.len() implies a.contains(#[trigger] b[j]) by {
+        assert(b.contains(b[j]));
+        assert(b.to_multiset().count(b[j]) > 0);
+    }
+}
 /// C09, header part: what rpm's headerVerifyInfo demands of the emitted header
 pub open spec fn from_entries_ok<T: Tag>(input: Seq<IndexEntry<T>>, region: u32, h: Header<T>) -> bool {
     let n = input.len() as int;
@@ -241,8 +299,11 @@ pub open spec fn from_entries_ok<T: Tag>(input: Seq<IndexEntry<T>>, region: u32,
     let body = layout_bytes(recs);
     &&& wf(h)                                               // intro counts describe entries and store
     &&& es.len() == n + 1
-    // records: a permutation of the input (tag, data, count untouched), tags in ascending order
+    // records: the input records (tag, data, count untouched - only offsets are assigned) ...
     &&& recs.len() == n
+    &&& forall|i: int| 0 <= i < n ==> has_payload(recs, #[trigger] input[i])
+    &&& forall|j: int| 0 <= j < n ==> has_payload(input, #[trigger] recs[j])
+    // ... with tags in ascending order
     &&& forall|i: int, j: int| 0 <= i < j < n ==> (#[trigger] recs[i]).tag <= (#[trigger] recs[j]).tag
     // every record sits at the type-aligned end of its predecessors; the store is exactly the
     // aligned concatenation of the encoded data (hence in range and non-overlapping) ...
@@ -274,6 +335,8 @@ OBLIGATIONS = {
     'lemma_layout_mono': ['C09'],
     'lemma_layout_empty': ['C09'],
     'lemma_layout_same': ['C09'],
+    'lemma_align': ['C09'],
+    'lemma_same_elements': ['C09'],
     'lemma_offset_same': ['C09'],
 }
 CANARIES = ['canary_c09_region']
